@@ -1029,6 +1029,88 @@ pub fn gen_dec_valid(rng: &mut Rng, limit: bool) -> DecCase {
     DecCase { dir, enc, max, buf_size: *rng.pick(&BUF_SIZES), evs, stream: bytes, extra_polls: rng.below(4) as usize }
 }
 
+/// A decoder case around one BIG frame (seed C07f: a decoder that swaps its buffer for a fresh one after a
+/// frame larger than 64 KiB loses whatever followed that frame in the same chunk).  The big payload is one
+/// long run (a few hundred bytes as a token), a small frame may precede it and one to three small frames
+/// follow it; the chunkings put the first bytes of the following frame into the chunk that completes the big
+/// one (k = 1..8 bytes, a whole frame, everything), or cut the big payload the way h2 does (16 KiB DATA
+/// frames).  `hostile`: the tail is damaged (cut off, bad flag) - the messages before it must still arrive.
+pub fn gen_dec_big(rng: &mut Rng, hostile: bool) -> DecCase {
+    let big = *rng.pick(&[60_000usize, 65_530, 65_531, 65_535, 65_536, 65_537, 65_541, 70_000, 131_072, 300_000, 1 << 20]);
+    let fill = rng.below(256) as u8;
+    let mut payload = vec![fill; big];
+    payload[0] = fill.wrapping_add(1);
+    payload[big - 1] = fill.wrapping_add(2);
+    let mut bytes = Vec::new();
+    if rng.chance(1, 3) {
+        bytes.extend(frame(0, &gen_msg(rng, 20)));
+    }
+    bytes.extend(frame(0, &payload));
+    let end = bytes.len();
+    let mut tail_starts = Vec::new();
+    for _ in 0..rng.range(1, 4) {
+        tail_starts.push(bytes.len());
+        bytes.extend(frame(0, &gen_msg(rng, 30)));
+    }
+    if hostile {
+        match rng.below(3) {
+            0 => {
+                let cut = rng.range(end as u64 + 1, bytes.len() as u64) as usize;
+                bytes.truncate(cut);
+            }
+            1 => {
+                let at = *rng.pick(&tail_starts);
+                bytes[at] = rng.range(2, 256) as u8;
+            }
+            _ => {
+                // the last frame announces more than follows
+                let at = *tail_starts.last().unwrap();
+                bytes[at + 4] = bytes[at + 4].wrapping_add(3);
+            }
+        }
+    }
+    let n = bytes.len();
+    let mut cuts: Vec<usize> = match rng.below(6) {
+        0 => vec![],
+        1 => vec![end + rng.range(1, 9) as usize],
+        2 => vec![end - rng.range(1, 9) as usize, end + rng.range(1, 9) as usize],
+        3 => (1..=n / 16384).map(|i| i * 16384).collect(),
+        4 => {
+            let mut c: Vec<usize> = (1..=end / 16384).map(|i| i * 16384).collect();
+            c.push(tail_starts.get(1).copied().unwrap_or(end + 5));
+            c
+        }
+        _ => {
+            let mut c = vec![rng.below(end as u64) as usize, rng.below(end as u64) as usize];
+            c.push(end + rng.range(1, 9) as usize);
+            c
+        }
+    };
+    cuts.retain(|c| *c > 0 && *c < n);
+    cuts.sort();
+    cuts.dedup();
+    let mut chunks = Vec::new();
+    let mut prev = 0;
+    for c in cuts {
+        chunks.push(bytes[prev..c].to_vec());
+        prev = c;
+    }
+    chunks.push(bytes[prev..].to_vec());
+    let pend = rng.chance(1, 2);
+    let mut evs = events_from_chunks(rng, chunks, pend);
+    let dir = if rng.chance(1, 2) { "req".to_string() } else { "resp200".to_string() };
+    if dir == "resp200" && rng.chance(1, 2) {
+        evs.push("t0".into());
+    }
+    let max = match rng.below(4) {
+        0 => None,
+        1 => Some(big),
+        2 => Some(big + 1),
+        _ => Some(8 << 20),
+    };
+    DecCase { dir, enc: None, max, buf_size: *rng.pick(&BUF_SIZES), evs, stream: bytes, extra_polls: rng.below(4) as usize }
+}
+
 /// Hostile input: mutations of a valid stream, truncations, raw random bytes, injected body
 /// errors and mid-stream trailers.
 pub fn gen_dec_hostile(rng: &mut Rng) -> DecCase {
